@@ -63,7 +63,10 @@ def real_placeholder():
     dep = np.zeros((2, 3), dtype=np.float32)
     res = P.run([[Token(word='a'), Token(word='b')]], [ScoringResult(tag, dep)], [synth.SCat(0), synth.SCat(1)], [synth.SCat(0)],
                 synth.BinaryFun(g), synth.UnaryFun(g), processes=1)
-    return res[0]
+    # ... and what comes back for a sentence longer than max_length
+    res2 = P.run([[Token(word='a'), Token(word='b')]], [ScoringResult(tag, dep)], [synth.SCat(0), synth.SCat(1)], [synth.SCat(0)],
+                 synth.BinaryFun(g), synth.UnaryFun(g), processes=1, max_length=1)
+    return res[0], res2[0]
 
 
 def run(spec, R):
@@ -77,7 +80,7 @@ def run(spec, R):
     if not formats or len(formats) < 5:
         raise Inconclusive(f'could not read the CLI format list for {lang} from depccg/argparse.py')
     R.extra[f'cli_formats_{lang}'] = formats
-    ph = real_placeholder()
+    ph, ph_long = real_placeholder()
     if not (len(ph) == 1 and ph[0].tree.is_leaf):
         raise Inconclusive('the search did not return a placeholder for an unparseable sentence')
     R.sample({'placeholder': [str(ph[0].tree.cat), dict(ph[0].tree.token), ph[0].score]})
@@ -95,7 +98,7 @@ def run(spec, R):
         for _ in range(rng.randint(1, 3)):
             r = rng.random()
             if r < 0.35:
-                sents.append(copy.deepcopy(ph))
+                sents.append(copy.deepcopy(ph if rng.random() < 0.6 else ph_long))
                 kinds.append('placeholder')
             else:
                 want = labels[(i + len(sents)) % len(labels)] if r < 0.8 else None
